@@ -96,11 +96,9 @@ predicate of the two theorems above: on the unchanged tree an `A` line is an `S`
 theorem annot_reproduces_model (c : Cfg) (n : Nat) :
     annot c ((flat (run c n init).trace).map Obs.raw) = flat (run c n init).trace := annot_flat c n
 
-theorem agree_implies_spec (c : Cfg) (impl : List Raw) (h : impl = (flat (trace c)).map Obs.raw)
+theorem agree_implies_spec (c : Cfg) (impl : List Raw) (h : impl = (flat (final c).trace).map Obs.raw)
     (hex : (final c).exhausted = false) : spec c (annot c impl) = true := by
-  subst h
-  have : annot c ((flat (trace c)).map Obs.raw) = flat (trace c) := annot_flat c fuel
-  rw [this]; exact spec_final c hex
+  rw [h, annot_flat_final]; exact spec_final c hex
 
 /-! ### non-vacuity: concrete chains (the repaired defect, a re-match that resumes, a forwarded request) -/
 
